@@ -107,10 +107,27 @@ pub async fn clean_run(rng: &mut Rng, backend: Backend, n_ops: usize, st: &mut S
     clean_run_with(rng, backend, n_ops, None, st).await
 }
 
+/// Initial index set: all nine (one time in `all_den`), otherwise none at all (a plain document
+/// store: no index can vouch for a document or for a removal; seeded change C01-6), exactly one, or
+/// a random subset.
+pub fn pick_set0(rng: &mut Rng, all_den: u64) -> IndexSet {
+    if rng.chance(1, all_den) {
+        return IndexSet::ALL;
+    }
+    match rng.below(8) {
+        0 | 1 => IndexSet(0),
+        2 => IndexSet(1 << rng.below(9)),
+        _ => IndexSet(rng.below(512) as u16),
+    }
+}
+
 pub async fn clean_run_with(rng: &mut Rng, backend: Backend, n_ops: usize, burst: Option<(Burst, usize)>, st: &mut Stats) -> Option<Clean> {
     let cfg = Cfg::random(rng);
     let contention = pick_contention(rng);
-    let set0 = if rng.chance(1, 3) { IndexSet::ALL } else { IndexSet(rng.below(512) as u16) };
+    let set0 = pick_set0(rng, 3);
+    if set0.0 == 0 {
+        st.count("workloads_starting_without_any_index");
+    }
     let rec = RecStore::new();
     rec.set_record_reads(false);
     let store = wrap(backend, rec.as_dyn());
@@ -579,7 +596,7 @@ pub async fn unknown_outcome(seed_rng: &Rng, backend: Backend, n_ops: usize, fau
     let rng = &mut rng;
     let cfg = Cfg::random(rng);
     let contention = pick_contention(rng);
-    let set0 = if rng.chance(1, 3) { IndexSet::ALL } else { IndexSet(rng.below(512) as u16) };
+    let set0 = pick_set0(rng, 3);
     let rec = RecStore::new();
     rec.set_record_reads(false);
     rec.set_fault(fault);
@@ -742,7 +759,7 @@ pub async fn failed_call_then_crash(seed_rng: &Rng, backend: Backend, tier: vcor
     // clean pass: which attempt touches which object
     let plan = |rng: &mut Rng| -> (Cfg, IndexSet, usize, usize) {
         let cfg = Cfg::random(rng);
-        let set0 = if rng.chance(1, 2) { IndexSet::ALL } else { IndexSet(rng.below(512) as u16) };
+        let set0 = pick_set0(rng, 2);
         let n_adds = 70 + rng.usize(70);
         let flush_at = rng.usize(n_adds);
         (cfg, set0, n_adds, flush_at)
